@@ -1085,3 +1085,38 @@ CASES += [
         }
         let v1 = self.condition(sdd, lbl, true);"""),
 ]
+
+# ------------------------------------------------------------------ renaming locals must not matter
+CASES += [
+    dict(name="rename-locals-unit-prop-ok", file=UP, rule="WS", props=["C09", "C06"], expect=None,
+         rename=[("watcher_idx", "cursor"), ("implied", "initial_units"), ("new_set", "sat_now"), ("prev_watcher", "this_clause"),
+                 ]),
+    dict(name="rename-locals-compress-ok", file="src/builder/sdd/compression.rs", rule="CM", props=["C04"], expect=None,
+         rename=[("j", "other")]),
+    dict(name="rename-locals-bb-ok", file=RB, rule="BB", props=["C12"], expect=None,
+         rename=[("best_lb", "incumbent_value"), ("best_model", "incumbent"), ("true_model", "with_x"), ("false_model", "without_x")]),
+    dict(name="rename-locals-cnf-ok", file=CNF, rule="HS", props=["C15"], expect=None,
+         rename=[("cur_clause_v", "prod"), ("clause_sat", "ok"), ("new_clause", "kept")]),
+    dict(name="rename-locals-bump-table-ok", file=BT, rule="RH", props=["C02", "C04"], expect=None,
+         rename=[("searcher", "carried"), ("pos", "slot"), ("cur_itm", "resident"), ("off", "next_dist")]),
+]
+
+ALLP = ["C01", "C02", "C03", "C04", "C05", "C06", "C07", "C08", "C09", "C10", "C11", "C12", "C13", "C14", "C15", "C16", "C17", "C19"]
+CASES += [
+    dict(name="rename-locals-robdd-ok", file=B, rule="CP", props=ALLP, expect=None,
+         rename=[("level_var", "lv"), ("smoothed_node", "padded"), ("res", "outcome")]),
+    dict(name="rename-locals-topdown-ok", file=DN, rule="TD", props=ALLP, expect=None,
+         rename=[("cur_v", "decision_var"), ("high_bdd", "hi"), ("low_bdd", "lo"), ("new_assgn", "implied_lits")]),
+    dict(name="rename-locals-sdd-builder-ok", file=SB, rule="CP", props=ALLP, expect=None,
+         rename=[("newp", "p2"), ("news", "s2")]),
+    dict(name="rename-locals-var-order-ok", file=VOF, rule="VO", props=ALLP, expect=None,
+         rename=[("pa", "level_a"), ("pb", "level_b"), ("this_level", "lvl")]),
+    dict(name="rename-locals-vtree-ok", file=VTF, rule="VT", props=ALLP, expect=None,
+         rename=[("l_tree", "left"), ("r_tree", "right"), ("l_s", "first_half"), ("r_s", "second_half")]),
+    dict(name="rename-locals-model-ok", file=MODEL, rule="PM", props=ALLP, expect=None,
+         rename=[("true_v", "pos_set"), ("false_v", "neg_set"), ("init_assgn", "slots")]),
+    dict(name="rename-locals-lru-ok", file="src/util/lru.rs", rule="GL", props=ALLP, expect=None,
+         rename=[("pos", "slot")]),
+    dict(name="rename-locals-bdd-repr-ok", file=RB, rule="BB", props=ALLP, expect=None,
+         rename=[("possible_best", "candidate"), ("margvar_bits", "open_vars"), ("upper_bound", "ub"), ("partialmodel", "branch")]),
+]
